@@ -329,7 +329,7 @@ func execHeadersFirst(f []string) string {
 // random interleavings, mostly parents first with some disorder and duplicates; some histories
 // restart the chain (new BlockChain on the same database with another utxo cache size).
 func genHeadersFirst(g *core.Gen) {
-	for i := 0; i < g.N(200, 1500); i++ {
+	for i := 0; i < g.N(160, 1500); i++ {
 		class, nontrivial, line := hfLine(g.R)
 		g.Case(class, nontrivial, "C17 "+line)
 	}
@@ -340,7 +340,7 @@ func genHeadersFirst(g *core.Gen) {
 // a stale cached "oldest" pointer (its orphan was accepted meanwhile) evicts nothing.
 func genOrphanPool(g *core.Gen) {
 	r := g.R
-	for i := 0; i < g.N(6, 40); i++ {
+	for i := 0; i < g.N(4, 40); i++ {
 		k := int(r.Pick(100, 101, 102, 103, 104, 108)) // chain 0..k: blocks k..2 delivered first are k-1 orphans
 		var ds []string
 		for id := k; id >= 2; id-- {
@@ -352,7 +352,7 @@ func genOrphanPool(g *core.Gen) {
 		}
 		g.Case("hf-orphan-pool", true, fmt.Sprintf("C17 hf 0:%d - %s", k, strings.Join(ds, " ")))
 	}
-	for i := 0; i < g.N(3, 20); i++ {
+	for i := 0; i < g.N(2, 20); i++ {
 		// nodes: 1 (child of 0), 2 (child of 1), chain 3..(2+m) off the root; 3 is never delivered
 		m := int(r.Pick(103, 104, 106))
 		top := 2 + m
